@@ -34,7 +34,10 @@ CONSTANTS
   MaxRandSize,  \* 0, or: one more random size in 1..MaxRandSize per step
   MaxRandBig,   \* 0, or: one more random size in 1..MaxRandBig per step (several pages)
   TocBytes,     \* set of TOC bytes (configuration, stereo bit, frame-count code)
-  B1s,          \* candidate second bytes of code-3 packets (VBR bit, padding bit, frame count)
+  B1s,          \* candidate second bytes of code-3 packets (VBR bit, padding bit, frame count), valid or not
+  Empties,      \* BOOLEAN: empty RTP payloads are part of the packet domain
+  Bufs,         \* how the application owns payload memory: "fresh" slice per packet / one "shared" receive buffer that is
+                \* overwritten after every WriteRTP and before Close (no effect on the model: the writers must copy)
   ChCfgs,       \* channel configurations of multi-track tracks, subset of DOMAIN IdSize
   TagCfgs,      \* OpusTags configurations, subset of DOMAIN TagSize
   Rates,        \* header sample rates (carried through to the vector only)
@@ -42,12 +45,12 @@ CONSTANTS
   Emit,         \* BOOLEAN: print the vector when the behaviour is closed
   InitSample    \* 0 = all configurations, else that many random ones
 
-VARIABLES cfg,      \* [api, ntr, ch, tag, rate, np]
+VARIABLES cfg,      \* [api, ntr, ch, tag, rate, np, buf]
           phase,    \* "open" | "closed"
           started,  \* Writer.started (headers written); legacy writers start in their constructor
           trk,      \* per track: [pageIndex, cum, lastHas, lastIdx]
           out,      \* the pages in the output, in file order
-          wr,       \* ghost: per track the written packets [n, toc, b1]
+          wr,       \* ghost: per track the packets the writer accepted [n, toc, b1]
           ops       \* ghost: the calls made (for the vector)
 
 vars == <<cfg, phase, started, trk, out, wr, ops>>
@@ -67,10 +70,10 @@ Rewritable(api) == api \in {"New", "WriterSeek"}       \* pageRewriter != nil
 NPs == IF Sample THEN 0..MaxPackets ELSE {MaxPackets}
 LegacySpace ==
   [api : Apis \cap {"New", "NewWith"}, ntr : {1}, ch : [{1} -> {"c1", "c2"}], tag : [{1} -> {"def"}], rate : [{1} -> Rates],
-   np : NPs]
+   np : NPs, buf : Bufs]
 MultiSpace(n) ==
   [api : Apis \cap {"Writer", "WriterSeek"}, ntr : {n}, ch : [1..n -> ChCfgs], tag : [1..n -> TagCfgs],
-   rate : [1..n -> Rates], np : NPs]
+   rate : [1..n -> Rates], np : NPs, buf : Bufs]
 CfgSpace == LegacySpace \cup UNION { MultiSpace(n) : n \in 1..MaxTracks }
 \* simulation: about InitSample configurations, the same number for the legacy API and for each number of tracks
 SampleSmall(k, S) == IF Cardinality(S) <= k THEN S ELSE RandomSubset(k, S)
@@ -140,21 +143,38 @@ Init ==
 SizeChoices == Sizes \cup (IF MaxRandSize > 0 THEN RandomSubset(1, 1..MaxRandSize) ELSE {})
                      \cup (IF MaxRandBig > 0 THEN RandomSubset(1, 1..MaxRandBig) ELSE {})
 
-\* WriteRTP of a valid Opus packet on track t
+\* second byte of a code-3 packet: exhaustively every candidate; in simulation a refused one (frame count 0, or more
+\* than 120 ms) in about one code-3 packet out of four
+B1Ok(toc, b) == FrameCount(toc, b) >= 1 /\ SamplesOf(toc, b) <= 5760
+B1Choices(toc) ==
+  IF toc % 4 # 3 THEN {0}
+  ELSE IF ~Sample THEN B1s
+  ELSE LET good == {b \in B1s : B1Ok(toc, b)}
+           bad  == B1s \ good
+           pick == IF RandomSubset(1, 1..4) = {1} THEN bad ELSE good
+       IN RandomSubset(1, IF pick = {} THEN B1s ELSE pick)
+
+\* WriteRTP of a packet on track t. The packet domain includes what the writers refuse or ignore:
+\*   n = 0                         empty RTP payload: ignored, WriteRTP returns nil, nothing happens;
+\*   code 3 and n = 1              the frame-count byte is missing: errInvalidOpusPacket;
+\*   code 3, frame count 0         errInvalidOpusPacket;
+\*   frame count x frame size > 120 ms   errInvalidOpusPacket.
+\* A refused packet leaves the track untouched (opusPacketSampleCount fails before previousGranulePosition is
+\* advanced and before any page is written) - but the multi-track Track.WriteRTP has already called startLocked, so
+\* the header pages of all tracks are written by the first non-empty packet even if it is refused.
 Write ==
   /\ phase = "open" /\ Len(ops) < cfg.np
-  /\ \E t \in Pick(1..cfg.ntr), toc \in Pick(TocBytes), n0 \in Pick(SizeChoices) :
-     \E b1 \in Pick({b \in (IF toc % 4 = 3 THEN B1s ELSE {0}) : FrameCount(toc, b) >= 1 /\ SamplesOf(toc, b) <= 5760}) :
-       LET tb == <<toc, b1>>
-           n  == IF tb[1] % 4 = 3 /\ n0 < 2 THEN 2 ELSE n0         \* a code-3 packet has a second byte
+  /\ \E t \in Pick(1..cfg.ntr), toc \in Pick(TocBytes), n \in Pick(SizeChoices \cup (IF Empties THEN {0} ELSE {})) :
+     \E b1 \in B1Choices(toc) :
+       LET ok == n >= 1 /\ ValidOpus(toc, b1, n)
            s0 == [out |-> out, trk |-> trk]
-           s1 == IF started THEN s0 ELSE Start(s0)
-           g  == s1.trk[t].cum + SamplesOf(tb[1], tb[2])            \* previousGranulePosition += sampleCount
-           s2 == WritePage(s1.out, [s1.trk EXCEPT ![t].cum = g], t, n, {}, g, <<t, 3 + Len(wr[t])>>, "other")
-       IN /\ ValidOpus(tb[1], tb[2], n)
-          /\ out' = s2.out /\ trk' = s2.trk /\ started' = TRUE
-          /\ wr' = [wr EXCEPT ![t] = Append(@, [n |-> n, toc |-> tb[1], b1 |-> tb[2]])]
-          /\ ops' = Append(ops, [t |-> t, toc |-> tb[1], b1 |-> tb[2], n |-> n])
+           s1 == IF started \/ n = 0 THEN s0 ELSE Start(s0)
+           g  == s1.trk[t].cum + SamplesOf(toc, b1)                 \* previousGranulePosition += sampleCount
+           s2 == IF ok THEN WritePage(s1.out, [s1.trk EXCEPT ![t].cum = g], t, n, {}, g, <<t, 3 + Len(wr[t])>>, "other")
+                       ELSE s1
+       IN /\ out' = s2.out /\ trk' = s2.trk /\ started' = (started \/ n >= 1)
+          /\ wr' = IF ok THEN [wr EXCEPT ![t] = Append(@, [n |-> n, toc |-> toc, b1 |-> b1])] ELSE wr
+          /\ ops' = Append(ops, [t |-> t, toc |-> toc, b1 |-> b1, n |-> n, ok |-> ok])
   /\ UNCHANGED <<cfg, phase>>
 
 \* markTrackEndOfStream: the last page of the track is written again with the EOS flag added
@@ -229,7 +249,7 @@ SimInv == phase = "closed" =>
             /\ ModelBodies /\ ModelEosOnlyLast /\ ModelBosFirst
 
 (* ---- vector emission ---------------------------------------------------------- *)
-Vec == [api |-> cfg.api,
+Vec == [api |-> cfg.api, buf |-> cfg.buf,
         tracks |-> [t \in 1..cfg.ntr |-> [ch |-> cfg.ch[t], tag |-> cfg.tag[t], rate |-> cfg.rate[t]]],
         ops |-> ops, model_pages |-> Len(out),
         \* pages that do not belong to the OpusHead / OpusTags packets (the sizes of those are abstract in the model)
